@@ -149,6 +149,7 @@ type Map struct {
 	index map[string]int // concrete keys -> position
 	dead  []bool
 	n     int
+	iters []*mapIter // iterators handed out (for the concurrent iteration/write check)
 }
 
 func newMap(kt types.Type) *Map { return &Map{KeyT: kt, index: map[string]int{}} }
